@@ -230,6 +230,7 @@ def run(f, fixture, rep, cfg, tier):
         pv = [x for x in f.body_list if x.impl_trait == "rpm::signature::traits::Verifying" and x.name == "verify" and (x.impl_self or "").endswith("pgp::Verifier")]
         if rep.anchor(len(pv) == 1, "R6", "<pgp::Verifier as Verifying>::verify"):
             check_pgp_verifier(pv[0], rep)
+        check_pgp_data(f, rep, "R6", cfg)
 
 
 def check_pgp_verifier(b, rep):
@@ -284,6 +285,35 @@ def check_pgp_verifier(b, rep):
                             guarded = True
             rep.check(guarded, "R6", "subkey-guard|#%d" % i, "subkey verification is guarded by key-id equality",
                       "a subkey is used for verification without the key-id equality guard", c.loc())
+
+
+def check_pgp_data(f, rep, rule, cfg):
+    """The pgp signer and verifier hand the bytes they are given to the pgp crate untouched and whole:
+    what is signed is what is later verified (a partial read on either side breaks sign-then-verify for large headers)."""
+    if "no-default" in cfg:
+        return
+    pv = [x for x in f.body_list if x.impl_trait == "rpm::signature::traits::Verifying" and x.name == "verify" and (x.impl_self or "").endswith("pgp::Verifier")]
+    ps = [x for x in f.body_list if x.impl_trait == "rpm::signature::traits::Signing" and x.name == "sign" and "pgp::Signer" in (x.impl_self or "")]
+    if not rep.anchor(len(pv) == 1 and len(ps) == 1, rule, "pgp Signer::sign and Verifier::verify"):
+        return
+    for b, rx, argi, floor in ((pv[0], r"pgp::(packet::)?Signature::verify$", 2, 3), (ps[0], r"pgp::packet::SignatureConfig::sign$", 3, 1)):
+        tb = TermBuilder(b)
+        calls = [c for c in b.calls() if re.search(rx, c.decl)]
+        rep.floor(rule, "%s call sites in %s" % (rx, fmt_key(b.path)), len(calls), floor)
+        want = b.local_name(2) or "_2"
+        for i, c in enumerate(calls):
+            got = render(tb.term(c.args[argi])) if len(c.args) > argi else "?"
+            whole = (want, "buf[write:std::io::Read::read_to_end(%s)]" % want)   # the reader itself, or everything read from it
+            rep.check(got in whole, rule, "pgp-data|%s|#%d" % (b.name, i), "%s hands its `%s` reader to the pgp crate as given" % (fmt_key(b.path), want),
+                      "%s gives the pgp crate %s instead of the reader it received: the bytes %s may be a part or a transformation of the header"
+                      % (b.path, got[:160], "verified" if b.name == "verify" else "signed"), c.loc())
+        # nothing else may consume the reader first
+        for c in b.calls():
+            if re.search(rx, c.decl) or c.decl.startswith("log::") or not c.args:
+                continue
+            for ai, a in enumerate(c.args):
+                if render(tb.term(a)) == want and re.search(r"(Read::read\w*|BufRead::\w+|io::copy|Read::take|Read::bytes)$", c.decl) and not c.decl.endswith("Read::read_to_end"):
+                    rep.finding(rule, "pgp-data|%s|consumed-by|%s" % (b.name, c.decl.rsplit("::", 1)[-1]), "%s reads from the data itself (%s) before/besides the pgp crate" % (b.path, c.decl), c.loc())
 
 
 def users_of_discr(b, call):
